@@ -130,9 +130,14 @@ def run_item(item):
                                      kind="bounded", verdict="HELD", evaluations=b["evaluations"], bound=b["bound"],
                                      backend="bounded", target=c.target))
             from pyvc.engine import SOURCE
-            mod, qn = _split_target(c.target)
+            from pyvc.verify import resolve_target
+            try:
+                ft = resolve_target(c.target)
+                fh = SOURCE.func_hash(ft.__module__, ft.__qualname__)      # where the function is DEFINED
+            except Exception:
+                fh = None
             meta = dict(target=c.target, paths=r["paths"], calls=r["calls"], wall=r["wall"],
-                        func_hash=SOURCE.func_hash(mod, qn), file_hashes=dict(SOURCE.hashes))
+                        func_hash=fh, file_hashes=dict(SOURCE.hashes))
             return dict(item=item, obligations=obls, meta=meta, wall=time.time() - t0)
         if kind in ("lemma", "enum", "bounded", "scan"):
             fn = load_obj(item["spec"])
